@@ -6,7 +6,7 @@ HOOKS = {
     "guard": "aws_smt_strings_verif",
     "enable": "RUSTFLAGS --cfg aws_smt_strings_verif via /verif/harness/.cargo/config.toml (the harness depends on /repo by path and rebuilds it from the working tree)",
     "baseline_off_cmd": "cd /repo && cargo test --workspace --no-fail-fast --offline",
-    "source_commits": ["e574610", "1ee3f09"],
+    "source_commits": ["e574610", "1ee3f09", "02bb657"],
     "add_only": True,
 }
 
